@@ -1067,7 +1067,7 @@ class C20(Property):
         na = rng.randint(1, 3)
         acts = [{"k": "dense", "v": [{"n": [PRIMES[4 + i * 3 + j], 1]} for j in range(na)], "wrap": rng.choice(["list", "tuple"])} for i in range(2)]
         c = {"kind": kind, "features": feats, "shape": rng.choice(["list", "list", "tuple"]), "context": ctx, "actions": acts}
-        if ctx["k"] == "none" and rng.chance(0.3):
+        if ctx["k"] == "none" and rng.chance(0.05):
             c["hashseeds"] = [0, 1, 2, 3]
         return {"caller": c}
 
